@@ -330,4 +330,38 @@ def executeSkipNone (isNone : V → Bool) (f : Node → List (Option V) → V) (
     (fuel : Nat) (actions : List Action) (c : VCache V) : VCache V :=
   actions.foldl (execActionSkipNone isNone f preds fuel) c
 
+/-! ### what the values are: direct evaluation
+
+A model is a finite DAG of elements (`preds n`: the precedents the formula of `n` reads, the dependency
+relation the plan is generated from) with a pure evaluation function: `f n vs` is the value of `n` when
+its precedents have the values `vs` (`some v`; `none` = the precedent had NO value when the formula read
+it – which the plan must never let happen).  So `f` reads its precedents only, by construction.
+`'calc'` of a node (`evalNodeV`) stores `f n (values of the precedents in the current cache)`.
+
+`direct f preds inp fuel n`: the value DIRECT evaluation gives `n` – asking modelx for `n` in a model that
+holds the user inputs `inp` only (`inp n = some v`: the user assigned `v` to `n`; such an element is NOT
+recomputed, everything is evaluated relative to them): the least fixed point of the evaluation equations
+along the DAG, by recursion on the depth `fuel` (`none`: not determined within that depth; for a DAG with
+topological order `ordered`, depth `ordered.length` determines every element – `direct_solves`). -/
+def direct (f : Node → List (Option V) → V) (preds : Node → List Node) (inp : Node → Option V) :
+    Nat → Node → Option V
+  | 0, n => inp n
+  | fuel + 1, n =>
+    match inp n with
+    | some v => some v
+    | none => some (f n ((preds n).map (direct f preds inp fuel)))
+
+/-- `D` solves the evaluation equations on the planned elements: each is `f` of its precedents' values -/
+def Solves (f : Node → List (Option V) → V) (preds : Node → List Node) (ordered : List Node) (D : Node → V) : Prop :=
+  ∀ n ∈ ordered, D n = f n ((preds n).map (fun p => some (D p)))
+
+/-- every entry of the cache is the value `D` gives its element (user inputs: `D` is the assigned value) -/
+def VCache.Cons (D : Node → V) (c : VCache V) : Prop := ∀ e ∈ c.data, e.2 = D e.1
+
+/-- the three actions of one step of a plan, with values -/
+def execStepV [Inhabited V] (f : Node → List (Option V) → V) (preds : Node → List Node) (fuel : Nat)
+    (o : StepOut) (c : VCache V) : VCache V :=
+  execActionV f preds fuel (execActionV f preds fuel (execActionV f preds fuel c (.doCalc o.block))
+    (.doPaste o.paste)) (.doClear o.clear)
+
 end MxModel.CalcSteps
